@@ -665,7 +665,7 @@ func evalConstants(q Q) Q {
 			return &Const{true}
 		}
 	case *Branch:
-		if s.Pattern == "" {
+		if s.Pattern == "" && !s.Exact {
 			return &Const{true}
 		}
 	case *BranchesRepos:
